@@ -29,7 +29,12 @@ static void tr(const char *kind, long id, size_t sz) {
     if (!verif_alloc_trace_on) return;
     trace_events++;
     if (trace_len + 40 >= sizeof(verif_alloc_trace)) return;
-    trace_len += (size_t)snprintf(verif_alloc_trace + trace_len, 40, "%s%ld:%zu ", kind, id, sz);
+    // canonical form shared with the Lean model: a<id>:<bytes>  F<id>:<bytes>  f<id>  (X = bad free)
+    const char *sep = trace_len ? " " : "";
+    if (kind[0] == 'f') trace_len += (size_t)snprintf(verif_alloc_trace + trace_len, 40, "%sf%ld", sep, id);
+    else if (kind[0] == 'X') trace_len += (size_t)snprintf(verif_alloc_trace + trace_len, 40, "%sX", sep);
+    else if (kind[0] == 'F') trace_len += (size_t)snprintf(verif_alloc_trace + trace_len, 40, "%sF%ld:%zu", sep, id, sz);
+    else trace_len += (size_t)snprintf(verif_alloc_trace + trace_len, 40, "%sa%ld:%zu", sep, id, sz);
 }
 void verif_alloc_reset(void) {
     verif_alloc_calls = verif_alloc_failed = verif_alloc_live = verif_alloc_bad_free = 0;
@@ -64,7 +69,7 @@ void *verif_calloc(size_t num, size_t size) {
     return p;
 }
 void verif_free(void *ptr) {
-    if (!ptr) { tr("f", 0, 0); return; }
+    if (!ptr) { return; }
     for (long i = nlive_slots - 1; i >= 0; i--) {
         if (live_ptr[i] == ptr) {
             tr("f", live_id[i], live_sz[i]);
